@@ -164,11 +164,30 @@ def kinds_of(desc):
 
 def run_case(case):
     scratch = pipeline.case_scratch("c02")
+    return _run_case(case, scratch)
+
+
+def _foreign_collection(pkg):
+    """proto-plus converts a dict into a dependency (pb2) message only for singular fields: lists/maps of pb2 messages
+    must be given as pb2 instances, so they are left out of the python-surface valuations (they stay in the bytes ones)."""
+    def skip(fd):
+        if fd.type != FD.TYPE_MESSAGE:
+            return False
+        t = fd.message_type
+        if t.GetOptions().map_entry:
+            v = t.fields_by_name["value"]
+            return v.type == FD.TYPE_MESSAGE and not v.message_type.full_name.startswith(pkg + ".")
+        return fd.label == FD.LABEL_REPEATED and not t.full_name.startswith(pkg + ".")
+    return skip
+
+
+def _run_case(case, scratch):
     api = build_api(case)
     req, g, lib = pipeline.build_and_generate(api, scratch)
     if not g.ok:
         return pipeline.gen_failed_result(g, api)
     model = rdm.Model(req)
+    foreign_collection = _foreign_collection(api.info["pkg"])
     rng = random.Random(case["seed"] ^ 0xC02)
     reserved = reserved_names()
     msgs, enums = all_messages(req)
@@ -180,7 +199,7 @@ def run_case(case):
             x = rdm.fill(rng, model.new(fq), max_depth=3, p_set=rng.choice([0.3, 0.6, 0.95]))
             vals.append(rdm.b64(x.SerializeToString()))
         for i in range(VALS // 2):
-            x = rdm.fill(rng, model.new(fq), max_depth=2, p_set=rng.choice([0.4, 0.9]), avoid_types=rdm.CONTAINER_WKT)
+            x = rdm.fill(rng, model.new(fq), max_depth=2, p_set=rng.choice([0.4, 0.9]), avoid_types=rdm.CONTAINER_WKT, skip=foreign_collection)
             py = rdm.to_py(x)
             # python surface: top-level keys are attribute names
             py = {(k + "_" if (k in reserved or keyword.iskeyword(k)) else k): v for k, v in py.items()}
